@@ -308,6 +308,9 @@ def _plan(run_seed, tier, env_names, perturb_kinds, p_perturb=0.5):
     env = E.make_env(cfg)
     B = rc.choice([1, 2, 3, 3, 4, 5, 6])
     rows = E.gen_rows(env, cfg, B, st.torch_seed("instances"))
+    source = "generator"
+    if rc.random() < 0.4:
+        rows, source = E.hand_format(name, rows, rc)
     strategies = [rc.choice(D.STRATEGIES) for _ in range(B)]
     if B > 1 and rc.random() < 0.4:  # rows that finish far apart
         strategies[0] = "zero_eager"
@@ -318,7 +321,7 @@ def _plan(run_seed, tier, env_names, perturb_kinds, p_perturb=0.5):
             perturbs.append({"kind": rc.choice(perturb_kinds), "at": rc.randint(0, 6),
                              "seed": rc.randrange(1 << 30)})
     return {"cfg": cfg, "instances": [E.enc_row(r) for r in rows], "strategies": strategies,
-            "perturbs": perturbs, "source": "generator"}
+            "perturbs": perturbs, "source": source}
 
 
 def _shrink(plan):
